@@ -199,6 +199,12 @@ def native(w):
     w.claim('64-byte signature', len(sig) == 64)
     sig2 = SG.sign_message(msg, bytes(ca.ed25519_private._signing_key))
     w.claim('sign_message gives the same (deterministic) signature', sig2 == sig)
+    # the helper's optional encoder argument: the encoded result decodes to the same 64-byte signature (which verifies)
+    import nacl.encoding as _ne
+    for enc in (_ne.RawEncoder, _ne.HexEncoder, _ne.Base64Encoder, _ne.URLSafeBase64Encoder):
+        ke, se = call(SG.sign_message, msg, bytes(ca.ed25519_private._signing_key), enc)
+        w.claim(f'sign_message(encoder={enc.__name__}) decodes to the 64-byte signature',
+                ke == 'ok' and enc.decode(se) == sig)
     if msg:
         bad = bytes([msg[0] ^ 1]) + msg[1:]
         w.claim('fails for another message', SG.verify_sign(pk, bad, sig) is False)
